@@ -305,8 +305,13 @@ func (self valSorter) Less(i, j int) bool {
 	switch self[i].Type().Kind() {
 	case reflect.String:
 		return strings.Compare(self[i].String(), self[j].String()) < 0
-	case reflect.Int:
+	case reflect.Int, reflect.Int8, reflect.Int16, reflect.Int32, reflect.Int64:
+		// create() makes map[int64]interface{} for int64 keys
 		return self[i].Int() < self[j].Int()
+	case reflect.Uint, reflect.Uint8, reflect.Uint16, reflect.Uint32, reflect.Uint64:
+		return self[i].Uint() < self[j].Uint()
+	case reflect.Float32, reflect.Float64:
+		return self[i].Float() < self[j].Float()
 	}
 	if i1, ok := self[i].Interface().(fmt.Stringer); ok {
 		i2 := self[j].Interface().(fmt.Stringer)
